@@ -16,10 +16,18 @@ from rules.core.facts import PASS_THROUGH
 CRATES = ["aranya_id"]
 
 
+def one(F, trait_suffix, name):
+    from rules.core.facts import MissingAnchor, path_match
+    c = [f for f in F.fns if f.name == name and f.trait and path_match(f.trait, trait_suffix) and f.self_adt == "aranya_id::id::Id"]
+    if len(c) != 1:
+        raise MissingAnchor("impl %s::%s for Id: found %d" % (trait_suffix, name, len(c)))
+    return c[0]
+
+
 def run(F, rep, tier):
     rep.explanation = __doc__
-    ser = F.fn("<aranya_id::id::Id as serde::Serialize>::serialize")
-    de = F.fn("<aranya_id::id::Id as serde::Deserialize>::deserialize")
+    ser = one(F, "ser::Serialize", "serialize")
+    de = one(F, "de::Deserialize", "deserialize")
 
     def hr_edges(f, trait_m):
         cs = [c for c in f.calls if c.name == "is_human_readable"]
@@ -107,14 +115,14 @@ def run(F, rep, tier):
                 rep.check(ok, "visit_seq|short-seq-errors", "K2 guarded-by",
                           "a sequence that ends early (None) returns invalid_length and does not continue the loop", site=f.site())
     # R3
-    disp = F.fn("<aranya_id::id::Id as core::fmt::Display>::fmt")
+    disp = one(F, "fmt::Display", "fmt")
     rep.check(any(c.name == "to_base58" for c in disp.calls), "Display|base58", "K5 sibling agreement", "Display prints to_base58()", site=disp.site())
-    fs = F.fn("<aranya_id::id::Id as core::str::FromStr>::from_str")
+    fs = one(F, "FromStr", "from_str")
     dec = F.fn("aranya_id::id::Id::decode")
     rep.check(any(c.is_("Id::decode") for c in fs.calls), "FromStr|decode", "K5 sibling agreement", "FromStr delegates to Id::decode", site=fs.site())
-    rep.check(any(c.is_("spideroak_base58::String32::decode") for c in dec.calls) and any(c.is_("Id::from_bytes") for c in dec.calls),
+    rep.check(any(c.is_("String32::decode") for c in dec.calls) and any(c.is_("Id::from_bytes") for c in dec.calls),
               "decode|String32", "K5 sibling agreement", "decode = String32::decode then from_bytes", site=dec.site())
-    tb = F.fn("<aranya_id::id::Id as spideroak_base58::ToBase58>::to_base58")
+    tb = one(F, "ToBase58", "to_base58")
     ok = False
     for c in tb.calls:
         if c.name == "to_base58":
